@@ -16,6 +16,7 @@ _SEQ = [0]
 _DEPTH = {}      # id(root) -> re-entrancy depth of root.update
 _installed = [False]
 ON_UPDATE_DONE = []   # callbacks(root, date) run when an outermost root.update completes
+_CTX = []             # stack of bt-internal callers currently active ("transact", "allocate"): an adjust logged with an empty stack is external
 
 
 def top(node):
@@ -46,9 +47,11 @@ def install():
     def transact(self, q, update=True, update_self=True, price=None):
         pos0 = self._position
         par = self.parent
+        _CTX.append("transact")
         try:
             r = o_transact(self, q, update, update_self, price)
         finally:
+            _CTX.pop()
             pos1 = self._position
             if pos1 != pos0:
                 EV.append({"k": "trade", "seq": _seq(), "sec": self, "parent": par, "root": top(par), "date": par.now, "q": float(q),
@@ -58,7 +61,7 @@ def install():
 
     def adjust(self, amount, update=True, flow=True, fee=0.0):
         EV.append({"k": "adjust", "seq": _seq(), "node": self, "root": top(self), "date": self.now, "amount": float(amount), "flow": bool(flow),
-                   "fee": float(fee), "update": bool(update)})
+                   "fee": float(fee), "update": bool(update), "ctx": _CTX[-1] if _CTX else None})
         return o_adjust(self, amount, update, flow, fee)
 
     def update(self, date, data=None, inow=None):
@@ -94,6 +97,16 @@ def install():
             e["p"] = self._price
             e["seq_end"] = _seq()
 
+    o_stalloc = StrategyBase.allocate
+
+    def stalloc(self, amount, child=None, update=True):
+        _CTX.append("allocate")
+        try:
+            return o_stalloc(self, amount, child, update)
+        finally:
+            _CTX.pop()
+
+    StrategyBase.allocate = stalloc
     SecurityBase.transact = transact
     StrategyBase.adjust = adjust
     StrategyBase.update = update
@@ -102,6 +115,7 @@ def install():
 
 def reset():
     del EV[:]
+    del _CTX[:]
     _DEPTH.clear()
     del ON_UPDATE_DONE[:]
 
